@@ -6,6 +6,9 @@ KEYS = [
     "doctrans.emitter_utils:interpolate_defaults",
     "doctrans.docstring_parsers:_infer_default",
     "doctrans.docstring_parsers:_set_name_and_type",
+    "doctrans.docstring_parsers:_set_param_values",
+    "doctrans.defaults_utils:_remove_default_from_param",
+    "doctrans.pure_utils:update_d",
 ]
 
 
